@@ -256,7 +256,7 @@ func (r *bytesReader) Read(p []byte) (int, error) {
 
 func TestLiveFirstMessage(t *testing.T) {
 	fx.Prelease(2)
-	fx.Run(t, fx.Spec[LiveCase]{Prop: "C17", Name: "live_first_message", Quick: 160, Thorough: 800, Gen: genLive, Run: runLive, ShrinkTime: "40s",
+	fx.Run(t, fx.Spec[LiveCase]{Prop: "C17", Name: "live_first_message", Journal: true, Quick: 160, Thorough: 800, Gen: genLive, Run: runLive, ShrinkTime: "40s",
 		Class: func(c LiveCase) fx.Class {
 			return fx.Class{NonTrivial: true, Fingerprint: fmt.Sprintf("%+v", c)}
 		}})
